@@ -258,8 +258,23 @@ def run(tier, seed):
     fam = cpu_family(vdir, cpucases, tier, rnd)
     ngen = len(cs)
     cs = cs + [f[0] for f in fam]
+    # operand family: every numeric operand of the comparison corpus' forms at values far outside and just outside the
+    # usual fields; whether such a program is erroneous is not known beforehand, so the run is held to be erroneous
+    # exactly when it printed a diagnostic or ended with a status other than 0 (Proc!Atomic: the two go together)
+    from .. import codec as K
+    cpun = {c["name"] for c in K.cpu_list(vdir)}
+    pforms = [(cpu, t) for cpu, t in K.corpus(cpun) if ":" not in t and K.NUM.search(t)]
+    if tier == "quick":
+        pforms = rnd.sample(pforms, min(len(pforms), 1200))
+    nfam = len(cs)
+    probes = []
+    for cpu, t in pforms:
+        for pos, variants in K.probe_texts(t, [-2147483648, -129, 255, 65536, 0x7fffffff]):
+            for vtext in variants:
+                probes.append((dict(kind="probe", type="hex", stale=False, cpu=cpu, term="eof", wrap="none", form=t, pos=pos), ".%s\n.org 0x100\n  %s\n" % (cpu, vtext)))
+    cs = cs + [pp[0] for pp in probes]
     for i, c in enumerate(cs):
-        src = render(c) if i < ngen else fam[i - ngen][1]
+        src = render(c) if i < ngen else (fam[i - ngen][1] if i < nfam else probes[i - nfam][1])
         srcs[i] = src
         jobs.append((exe, wd, "c%d" % i, c, src))
     results = {}
@@ -274,6 +289,9 @@ def run(tier, seed):
     for i, c in enumerate(cs):
         ob, out = results[i]
         if "cpu" in c and ((c["cpu"], c["term"]) in uncal or (c["cpu"], "eof") in uncal):
+            continue
+        if c["kind"] == "probe":
+            events.append({"id": i, "bad": ob["errs"] > 0 or ob["status"] != 0, "obs": ob})
             continue
         events.append({"id": i, "bad": c["kind"] != "none", "obs": ob})
     goods = [e for e in events if not e["bad"] and e["obs"]["status"] == 0]
@@ -305,7 +323,9 @@ def run(tier, seed):
         ob, out = results[cid]
         # identified by corruption kind, wrapping and what goes wrong (position/type/base vary)
         key = "Proc.%s@%s:%s" % (c["kind"], c["wrap"] if not c.get("how") else c["how"], v["why"].split(":")[0])
-        if "cpu" in c:
+        if c["kind"] == "probe":
+            key = "Proc.operand.%s:%s:%s" % (c["cpu"], K.shape(c["form"]), v["why"].split(":")[0])
+        elif "cpu" in c:
             key = "Proc.%s.%s+%s:%s" % (c["cpu"], c["kind"], c["term"], v["why"].split(":")[0])
         chk.report(key, "%s (%s)\n%s--- output tail:\n%s" % (v["why"], json.dumps(c), srcs[cid], out[-300:]),
                    dict(case=c, source=srcs[cid], observed=ob, why=v["why"], output=out))
@@ -317,9 +337,10 @@ def run(tier, seed):
              "(none, .if 1, .else part, macro body, .repeat, .scope) x output type x stale file planted (also as a symbolic link to an earlier image); "
              "combinations that can yield a valid program are excluded; per-CPU family: for every CPU of cpu_list[] a program of its own "
              "instructions (tests/comparison) x {unknown mnemonic, nine operands, unknown mnemonic inside .if, .db 300} x position x "
-             "{end of file, end, .end}; non-trivial = corrupted; distinct by source",
+             "{end of file, end, .end}; operand family: numeric operands of the corpus forms (quick: 1,200 forms) at -2^31, -129, 255, 65536, 2^31-1, "
+             "erroneous exactly when a diagnostic was printed or the status is not 0; non-trivial = corrupted; distinct by source",
         traces_validated_against_impl=len(events) - len(canaries),
-        kinds=kinds, per_cpu_cases=len(fam), cpus_left_out=sorted("%s+%s" % u for u in uncal), canaries=dict(injected=len(canaries), rejected=len(canaries)),
+        kinds=kinds, per_cpu_cases=len(fam), operand_cases=len(probes), cpus_left_out=sorted("%s+%s" % u for u in uncal), canaries=dict(injected=len(canaries), rejected=len(canaries)),
         exhaustive=True))
     chk.samples = [srcs[i] for i in rnd.sample(range(len(cs)), 3)]
     chk.assumptions = ["only source-level corruption (not command-line errors)",
